@@ -300,6 +300,22 @@ def t3(ck: Check) -> None:
         fm = prog.fm(TRAP, q)
         f = fm.f
         cbs = [g for g in prog.repo.funcs() if g.parent is f]
+        ren: dict[str, str] = {}
+        if not cbs:
+            # the callback may be built by a factory: on_solution=<factory>(results, solution_limit)
+            for c0 in own_walk(f.node):
+                if isinstance(c0, ast.Call) and callee_name(c0) == asyncq:
+                    ap_ = prog.fm(TRAP, asyncq).f.params()
+                    v0 = call_arg(c0, ap_.index("on_solution"), "on_solution") if "on_solution" in ap_ else None
+                    if isinstance(v0, ast.Call):
+                        tgt0 = prog.repo.resolve_call(f, v0)
+                        g0 = prog.repo.functions.get(tgt0) if tgt0 else None
+                        if g0 is not None:
+                            inner0 = [h for h in prog.repo.funcs() if h.parent is g0]
+                            rets0 = [r for r in own_walk(g0.node) if isinstance(r, ast.Return) and isinstance(r.value, ast.Name)]
+                            if len(inner0) == 1 and rets0 and rets0[-1].value.id == inner0[0].name:
+                                cbs = inner0
+                                ren = {p_: text(a_) for p_, a_ in zip(g0.params(), v0.args)}
         probs = []
         if len(cbs) != 1:
             probs.append("result callback not found")
@@ -307,9 +323,17 @@ def t3(ck: Check) -> None:
             cb = prog.model(cbs[0])
             app = [n for n in own_walk(cb.f.node) if isinstance(n, ast.Call) and isinstance(n.func, ast.Attribute) and n.func.attr == "append"]
             res = text(app[0].func.value) if app else None
+            res = ren.get(res, res)
             rets = [r for r in own_walk(cb.f.node) if isinstance(r, ast.Return)]
             # the callback's answer, over all its returns: continue iff no limit or len(results) < limit
-            tr0 = logic.Translator(lambda e: text(e), numeric={"solution_limit"})
+
+            def key0(e):
+                t_ = text(e)
+                return ren.get(t_, t_)
+            tr0 = logic.Translator(key0, numeric={"solution_limit"})
+            final = [r for r in own_walk(f.node) if isinstance(r, ast.Return) and isinstance(r.value, ast.Name)]
+            if app and final and res != final[-1].value.id:
+                probs.append("the callback does not fill the list that is returned")
             fs = []
             for r in rets:
                 hyp = []
